@@ -2,6 +2,8 @@ package main
 
 import (
 	"go/token"
+	"go/types"
+	"strings"
 
 	"golang.org/x/tools/go/ssa"
 )
@@ -255,4 +257,616 @@ func blockReaches(from, to *ssa.BasicBlock) bool {
 		}
 	}
 	return false
+}
+
+// checkTransferSetupSymmetry — C14/TRANSFER-FIELDS: the daemon (package
+// rsyncd) and the client (package maincmd) each build a receiver.Transfer and
+// a sender.Transfer. "The resulting destination is the same whether the data is
+// pulled, pushed or copied locally" needs the two constructions to configure
+// the same things: the set of Transfer fields that each package stores (in the
+// composite literal or afterwards) must be equal. A hook, callback or switch
+// that only one arrangement installs (Protect, a filter, a limit) makes the
+// arrangements diverge without any wire desynchronisation.
+func checkTransferSetupSymmetry(p *Prog, r *Report) {
+	rule := "C14/TRANSFER-FIELDS"
+	r.Rule(rule, "the daemon (package rsyncd) and the client (package maincmd) configure the same fields of receiver.Transfer and of sender.Transfer: per struct, the set of fields stored by production code of the one package equals the set stored by the other (composite literal or later assignment)", 2)
+	for _, pk := range []string{pkgReceiver, pkgSender} {
+		sets := map[string]map[string]string{pkgRsyncd: {}, pkgMaincmd: {}}
+		for _, fn := range p.ModFuncs {
+			home := pkgPathOfFunc(fn)
+			set, ok := sets[home]
+			if !ok || isTestSupport(home) {
+				continue
+			}
+			for _, b := range fn.Blocks {
+				for _, in := range b.Instrs {
+					st, isSt := in.(*ssa.Store)
+					if !isSt {
+						continue
+					}
+					fa, isFA := st.Addr.(*ssa.FieldAddr)
+					if !isFA {
+						continue
+					}
+					n := namedOf(fa.X.Type())
+					if n == nil || n.Obj().Pkg() == nil || n.Obj().Pkg().Path() != pk || n.Obj().Name() != "Transfer" {
+						continue
+					}
+					_, fld := fieldOfAddr(fa)
+					if fld != nil {
+						if _, seen := set[fld.Name()]; !seen {
+							set[fld.Name()] = p.Pos(st.Pos())
+						}
+					}
+				}
+			}
+		}
+		short := pk[len(modPath)+len("/internal/"):]
+		d, c := sets[pkgRsyncd], sets[pkgMaincmd]
+		if len(d) == 0 || len(c) == 0 {
+			r.Unk(rule, short+".Transfer construction sites", "-", "the daemon or the client no longer stores any field of "+short+".Transfer: constructors moved, re-anchor")
+			continue
+		}
+		// reviewed one-sided fields
+		allow := map[string]string{"sender.Source": "the file source of an fs.FS module: only a daemon has modules; nil means the OS file system on both sides (what may be read is C06's subject)"}
+		for f := range d {
+			if why, ok := allow[short+"."+f]; ok {
+				if _, both := c[f]; !both {
+					r.OK(rule, short+".Transfer."+f+" (allow-table)", d[f], why)
+					delete(d, f)
+				}
+			}
+		}
+		bad, where := "", "-"
+		for f, pos := range d {
+			if _, ok := c[f]; !ok {
+				bad += " " + f + " (daemon only)"
+				where = pos
+			}
+		}
+		for f, pos := range c {
+			if _, ok := d[f]; !ok {
+				bad += " " + f + " (client only)"
+				where = pos
+			}
+		}
+		r.Cond(bad == "", rule, short+".Transfer configured alike by daemon and client", where, "fields configured by one arrangement only:"+bad+": the same source, destination and options give a different result depending on who receives")
+	}
+}
+
+// checkFreshStat — C11/FRESH-STAT: setPerms decides what to change by
+// comparing the wanted attributes with a FileInfo of the destination entry
+// (st.Mode().Perm() != perm, modTimeEqual(st.ModTime(), …), setUid(f, st)).
+// That FileInfo must describe the entry as it is now: it is the result of an
+// Lstat in setPerms itself, or — when it is handed in — the result of an Lstat
+// in the caller with no entry-replacing call (Remove, Mkdir, symlink,
+// createDevice, rename, create) on any path between that Lstat and the call.
+// A stale FileInfo makes setPerms skip the Chmod/Chtimes/Lchown of an entry
+// that was just re-created.
+func checkFreshStat(p *Prog, r *Report) {
+	rule := "C11/FRESH-STAT"
+	r.Rule(rule, "every fs.FileInfo that setPerms (and its helpers) compares the wanted attributes with comes from an Lstat/Stat on the destination root with no entry-replacing call (Remove*, Mkdir*, Symlink, Rename, create, symlink(), createDevice(), renameio) on any path from that Lstat to the use — in setPerms itself, or in the caller when the FileInfo is passed in (nil = setPerms stats itself)", 1)
+	g := p.ModGraph()
+	sp := anchorFunc(p, r, pkgReceiver, "Transfer", "setPerms")
+	if sp == nil {
+		return
+	}
+	replacing := func(lbl string) bool {
+		for _, k := range []string{"Remove", "Mkdir", "Symlink", "Rename", "OpenFile[write]", "renameio", "unix.Mk", "unix.Bind", "Link", "Create"} {
+			if strings.Contains(lbl, k) {
+				return true
+			}
+		}
+		return false
+	}
+	mutCache := map[*ssa.Function]bool{}
+	var callMutates func(c ssa.CallInstruction) bool
+	callMutates = func(c ssa.CallInstruction) bool {
+		if lbl, ok := mutatorLabel(c); ok && replacing(lbl) {
+			return true
+		}
+		callee := c.Common().StaticCallee()
+		if callee == nil || callee.Blocks == nil || !isModFunc(callee) {
+			return false
+		}
+		if v, ok := mutCache[callee]; ok {
+			return v
+		}
+		mutCache[callee] = false
+		res := false
+		for fn := range g.Reach([]*ssa.Function{callee}, nil) {
+			if fn.Blocks == nil || !isModFunc(fn) {
+				continue
+			}
+			allCalls(fn, func(cc ssa.CallInstruction) {
+				if lbl, ok := mutatorLabel(cc); ok && replacing(lbl) {
+					res = true
+				}
+			})
+		}
+		mutCache[callee] = res
+		return res
+	}
+	// instrReaches: is there a CFG path from a (exclusive) to b (exclusive of b)?
+	instrIndex := func(in ssa.Instruction) int {
+		for i, x := range in.Block().Instrs {
+			if x == in {
+				return i
+			}
+		}
+		return -1
+	}
+	pathHasMutation := func(from, to ssa.Instruction) (string, bool) {
+		fn := from.Parent()
+		fb, tb := from.Block(), to.Block()
+		fi, ti := instrIndex(from), instrIndex(to)
+		// blocks reachable from fb's tail, and blocks reaching tb's head
+		fwd := map[*ssa.BasicBlock]bool{}
+		var walk func(b *ssa.BasicBlock)
+		walk = func(b *ssa.BasicBlock) {
+			for _, s := range b.Succs {
+				if !fwd[s] {
+					fwd[s] = true
+					walk(s)
+				}
+			}
+		}
+		walk(fb)
+		bwd := map[*ssa.BasicBlock]bool{}
+		var back func(b *ssa.BasicBlock)
+		back = func(b *ssa.BasicBlock) {
+			for _, s := range b.Preds {
+				if !bwd[s] {
+					bwd[s] = true
+					back(s)
+				}
+			}
+		}
+		back(tb)
+		check := func(b *ssa.BasicBlock, lo, hi int) (string, bool) {
+			for i := lo; i < hi && i < len(b.Instrs); i++ {
+				if c, ok := b.Instrs[i].(ssa.CallInstruction); ok && callMutates(c) {
+					return p.Pos(instrPos(c)), true
+				}
+			}
+			return "", false
+		}
+		if fb == tb && fi < ti {
+			if pos, bad := check(fb, fi+1, ti); bad {
+				return pos, true
+			}
+			if !fwd[fb] { // no cycle back through this block
+				return "", false
+			}
+		}
+		if pos, bad := check(fb, fi+1, len(fb.Instrs)); bad && (fwd[tb] || fb == tb) {
+			return pos, true
+		}
+		if pos, bad := check(tb, 0, ti); bad && (bwd[fb] || fb == tb) {
+			return pos, true
+		}
+		for _, b := range fn.Blocks {
+			if b == fb || b == tb || !fwd[b] || !bwd[b] {
+				continue
+			}
+			if pos, bad := check(b, 0, len(b.Instrs)); bad {
+				return pos, true
+			}
+		}
+		return "", false
+	}
+	isStatCall := func(v ssa.Value) *ssa.Call {
+		ex, ok := v.(*ssa.Extract)
+		if !ok || ex.Index != 0 {
+			return nil
+		}
+		c, ok := ex.Tuple.(*ssa.Call)
+		if !ok {
+			return nil
+		}
+		switch calleeName(c) {
+		case "(*os.Root).Lstat", "(*os.Root).Stat":
+			return c
+		}
+		// setUid returns the re-read FileInfo
+		if sc := c.Common().StaticCallee(); sc != nil && pkgPathOfFunc(sc) == pkgReceiver && sc.Name() == "setUid" {
+			return c
+		}
+		return nil
+	}
+	var fresh func(v ssa.Value, use ssa.Instruction, depth int) string
+	fresh = func(v ssa.Value, use ssa.Instruction, depth int) string {
+		if depth > 6 {
+			return "origin of the FileInfo not resolved"
+		}
+		v = unwrapLocal(v)
+		if isNilConst(v) {
+			return ""
+		}
+		if c := isStatCall(v); c != nil {
+			if pos, bad := pathHasMutation(c, use); bad {
+				return "the entry can be replaced at " + pos + " between the Lstat at " + p.Pos(c.Pos()) + " and this use: the FileInfo describes an entry that no longer exists"
+			}
+			return ""
+		}
+		switch x := v.(type) {
+		case *ssa.Phi:
+			// each incoming value must be fresh where it enters the phi, and the
+			// entry must not be replaced between the phi and the use
+			for i, e := range x.Edges {
+				if e == ssa.Value(x) {
+					continue
+				}
+				if why := fresh(e, lastInstr(x.Block().Preds[i]), depth+1); why != "" {
+					return why
+				}
+			}
+			if pos, bad := pathHasMutation(x, use); bad {
+				return "the entry can be replaced at " + pos + " after the FileInfo was chosen"
+			}
+			return ""
+		case *ssa.Parameter:
+			fn := x.Parent()
+			idx := -1
+			for i, pp := range fn.Params {
+				if pp == x {
+					idx = i
+				}
+			}
+			n := 0
+			for _, e := range g.In[fn] {
+				if isTestSupport(pkgPathOfFunc(e.From)) {
+					continue
+				}
+				cs, ok := e.Site.(ssa.CallInstruction)
+				if !ok || e.Escape || cs.Common().StaticCallee() != fn || idx < 0 || idx >= len(cs.Common().Args) {
+					return "a caller of " + funcKey(fn) + " is not a direct call: the FileInfo it passes is unknown"
+				}
+				n++
+				if why := fresh(cs.Common().Args[idx], cs, depth+1); why != "" {
+					return why + " (passed at " + p.Pos(instrPos(cs)) + ")"
+				}
+			}
+			if n == 0 {
+				return "no caller found for " + funcKey(fn)
+			}
+			return ""
+		}
+		return "the FileInfo is neither an Lstat result, nil, nor a parameter"
+	}
+	n := 0
+	for _, u := range g.unitFuncs(sp) {
+		if u.Name() == "setUid" {
+			continue
+		}
+		allCalls(u, func(c ssa.CallInstruction) {
+			var fi ssa.Value
+			what := ""
+			if c.Common().IsInvoke() && (c.Common().Method.Name() == "Mode" || c.Common().Method.Name() == "ModTime" || c.Common().Method.Name() == "Sys") && strings.HasSuffix(c.Common().Value.Type().String(), "fs.FileInfo") {
+				fi, what = c.Common().Value, "st."+c.Common().Method.Name()+"()"
+			} else if sc := c.Common().StaticCallee(); sc != nil && pkgPathOfFunc(sc) == pkgReceiver && sc.Name() == "setUid" && len(c.Common().Args) == 3 {
+				fi, what = c.Common().Args[2], "setUid(f, st)"
+			}
+			if fi == nil {
+				return
+			}
+			n++
+			why := fresh(fi, c, 0)
+			r.Cond(why == "", rule, funcKey(u)+" compares with "+what, p.Pos(instrPos(c)), why)
+		})
+	}
+	if n == 0 {
+		r.Unk(rule, "setPerms comparison baseline", p.Pos(sp.Pos()), "setPerms no longer consults a FileInfo: re-read how it decides what to change")
+	}
+}
+
+// checkSumsIndex — C08/SUMS-INDEX: the block-checksum list (SumHead.Sums) and
+// the sorted target table have a peer-chosen length (ChecksumCount, 0 < n <
+// 2^20 or so). Every index into them in package sender must be below that
+// length by construction or by test: a value whose provenance is not one of the
+// forms below can run past the end for some peer-chosen list, and an index out
+// of range in the daemon's connection goroutine takes the whole process down.
+func checkSumsIndex(p *Prog, r *Report) {
+	rule := "C08/SUMS-INDEX"
+	r.Rule(rule, "every index into a []rsync.SumBuf or []sender.target in package sender is bounded above by the list length: the site is dominated by idx < len(list) / idx < int(ChecksumCount) for that very value, or the value is (through conversions, phis, parameters and closure bindings, at every call site) a target.index load, an induction variable that starts at len(list)-1 or at a bounded value and only decreases, len(list)-1, a parameter of a less-function handed to sort.Slice, zero, or a negative constant (the \"no block\" marker); anything else (idx+1, arithmetic on indices) needs its own test", 12)
+	g := p.ModGraph()
+	isListType := func(t types.Type) bool {
+		sl, ok := t.Underlying().(*types.Slice)
+		if !ok {
+			return false
+		}
+		n := namedOf(sl.Elem())
+		if n == nil || n.Obj().Pkg() == nil {
+			return false
+		}
+		return (n.Obj().Pkg().Path() == modPath && n.Obj().Name() == "SumBuf") || (n.Obj().Pkg().Path() == pkgSender && n.Obj().Name() == "target")
+	}
+	isLenOrCount := func(v ssa.Value) bool {
+		v = stripConv(v)
+		if c, ok := v.(*ssa.Call); ok {
+			if bi, ok := c.Common().Value.(*ssa.Builtin); ok && bi.Name() == "len" && isListType(c.Common().Args[0].Type()) {
+				return true
+			}
+		}
+		if _, f := loadedField(v); f != nil && f.Name() == "ChecksumCount" {
+			return true
+		}
+		if fl, ok := v.(*ssa.Field); ok {
+			if st, ok := fl.X.Type().Underlying().(*types.Struct); ok && st.Field(fl.Field).Name() == "ChecksumCount" {
+				return true
+			}
+		}
+		return false
+	}
+	boundedByFact := func(v ssa.Value, at ssa.Instruction) bool {
+		for _, f := range FactsAt(at) {
+			bo, ok := f.Cond.(*ssa.BinOp)
+			if !ok {
+				continue
+			}
+			x, y := stripConv(bo.X), stripConv(bo.Y)
+			vv := stripConv(v)
+			switch {
+			case x == vv && isLenOrCount(bo.Y) && ((bo.Op == token.LSS && f.Val) || (bo.Op == token.GEQ && !f.Val)):
+				return true
+			case y == vv && isLenOrCount(bo.X) && ((bo.Op == token.GTR && f.Val) || (bo.Op == token.LEQ && !f.Val)):
+				return true
+			}
+		}
+		return false
+	}
+	var okIdx func(v ssa.Value, at ssa.Instruction, seen map[ssa.Value]bool, depth int) string
+	okIdx = func(v ssa.Value, at ssa.Instruction, seen map[ssa.Value]bool, depth int) string {
+		if depth > 8 {
+			return "provenance too deep"
+		}
+		if at != nil && boundedByFact(v, at) {
+			return ""
+		}
+		v = stripConv(unwrapLocal(v))
+		if at != nil && boundedByFact(v, at) {
+			return ""
+		}
+		if seen[v] {
+			return "" // a cycle through phis: decided by the other edges
+		}
+		seen[v] = true
+		defer delete(seen, v)
+		if _, f := loadedField(v); f != nil && f.Name() == "index" && f.Pkg() != nil && f.Pkg().Path() == pkgSender {
+			return ""
+		}
+		if fl, ok := v.(*ssa.Field); ok {
+			if st, ok := fl.X.Type().Underlying().(*types.Struct); ok && st.Field(fl.Field).Name() == "index" {
+				return ""
+			}
+		}
+		switch x := v.(type) {
+		case *ssa.Const:
+			if k, ok := constInt(x); ok && k <= 0 {
+				// negative: the "no block" marker, its sites are sign-guarded;
+				// zero: in range for a non-empty list (emptiness: C08/PTR-NONEMPTY)
+				return ""
+			}
+			return "constant index"
+		case *ssa.BinOp:
+			if x.Op == token.SUB {
+				if k, ok := constInt(x.Y); ok && k > 0 {
+					if isLenOrCount(x.X) {
+						return ""
+					}
+					return okIdx(x.X, nil, seen, depth+1) // decreasing keeps the upper bound
+				}
+			}
+			return "computed from `" + x.String() + "` (" + x.Op.String() + "): not bounded by the list length"
+		case *ssa.Phi:
+			for i, e := range x.Edges {
+				// a test on the incoming value holds where it enters the phi
+				if why := okIdx(e, lastInstr(x.Block().Preds[i]), seen, depth+1); why != "" {
+					return why
+				}
+			}
+			return ""
+		case *ssa.Parameter:
+			fn := x.Parent()
+			idx := -1
+			for i, pp := range fn.Params {
+				if pp == x {
+					idx = i
+				}
+			}
+			// less-function of sort.Slice and friends
+			n := 0
+			for _, e := range g.In[fn] {
+				if isTestSupport(pkgPathOfFunc(e.From)) {
+					continue
+				}
+				cs, ok := e.Site.(ssa.CallInstruction)
+				if !ok {
+					// a literal handed to the sort package (directly or boxed)
+					if mc, isMC := e.Site.(*ssa.MakeClosure); isMC && onlySortArg(mc) {
+						n++
+						continue
+					}
+					// a local closure that is only ever called directly: its call
+					// sites are edges of their own
+					if mc, isMC := e.Site.(*ssa.MakeClosure); isMC && onlyCalled(mc) {
+						continue
+					}
+					return "the function escapes as a value: callers unknown"
+				}
+				switch calleeName(cs) {
+				case "sort.Slice", "sort.SliceStable", "sort.Search", "slices.SortFunc", "slices.BinarySearchFunc":
+					n++
+					continue
+				}
+				args := cs.Common().Args
+				off := 0
+				if cs.Common().StaticCallee() == fn && fn.Signature.Recv() != nil {
+					off = 0 // receiver is Params[0] and Args[0]
+				}
+				if idx+off >= len(args) || e.Escape {
+					return "a caller of " + funcKey(fn) + " is not a direct call"
+				}
+				n++
+				if why := okIdx(args[idx+off], cs, seen, depth+1); why != "" {
+					return why + " (passed at " + p.Pos(instrPos(cs)) + ")"
+				}
+			}
+			if n == 0 {
+				return "no caller of " + funcKey(fn)
+			}
+			return ""
+		case *ssa.FreeVar:
+			fn := x.Parent()
+			if fn.Parent() == nil {
+				return "free variable without parent"
+			}
+			n := 0
+			for _, b := range fn.Parent().Blocks {
+				for _, in := range b.Instrs {
+					mc, ok := in.(*ssa.MakeClosure)
+					if !ok || mc.Fn != ssa.Value(fn) {
+						continue
+					}
+					for bi, fv := range fn.FreeVars {
+						if fv == x {
+							n++
+							if why := okIdx(mc.Bindings[bi], mc, seen, depth+1); why != "" {
+								return why
+							}
+						}
+					}
+				}
+			}
+			if n == 0 {
+				return "closure binding not found"
+			}
+			return ""
+		case *ssa.UnOp:
+			if x.Op == token.MUL {
+				// a variable captured by reference or spilled: every store
+				base := x.X
+				if fv, ok := base.(*ssa.FreeVar); ok {
+					fn := fv.Parent()
+					for _, b := range fn.Parent().Blocks {
+						for _, in := range b.Instrs {
+							if mc, ok := in.(*ssa.MakeClosure); ok && mc.Fn == ssa.Value(fn) {
+								for bi, f2 := range fn.FreeVars {
+									if f2 == fv {
+										base = mc.Bindings[bi]
+									}
+								}
+							}
+						}
+					}
+				}
+				if al, ok := base.(*ssa.Alloc); ok {
+					n := 0
+					for _, ref := range *al.Referrers() {
+						if st, ok := ref.(*ssa.Store); ok && st.Addr == ssa.Value(al) {
+							n++
+							if why := okIdx(st.Val, st, seen, depth+1); why != "" {
+								return why
+							}
+						}
+					}
+					if n > 0 {
+						return ""
+					}
+				}
+			}
+		case *ssa.Extract:
+			// j, ok := tagTable[tag]: positions stored from an index loop over the list
+			if lk, ok := x.Tuple.(*ssa.Lookup); ok && x.Index == 0 {
+				return okMapValues(p, lk.X, func(v ssa.Value, at ssa.Instruction) string { return okIdx(v, at, seen, depth+1) })
+			}
+		case *ssa.Lookup:
+			if _, isMap := x.X.Type().Underlying().(*types.Map); isMap {
+				return okMapValues(p, x.X, func(v ssa.Value, at ssa.Instruction) string { return okIdx(v, at, seen, depth+1) })
+			}
+		}
+		return "`" + v.String() + "` is not of a bounded form"
+	}
+	n := 0
+	for _, fn := range p.FuncsInPkg(pkgSender) {
+		for _, b := range fn.Blocks {
+			for _, in := range b.Instrs {
+				ia, ok := in.(*ssa.IndexAddr)
+				if !ok || !isListType(ia.X.Type()) {
+					continue
+				}
+				n++
+				why := okIdx(ia.Index, ia, map[ssa.Value]bool{}, 0)
+				r.Cond(why == "", rule, funcKey(fn)+" indexes "+types.TypeString(ia.X.Type(), func(*types.Package) string { return "" }), p.Pos(ia.Pos()), why+": an index past the end of the peer-sized list panics the process")
+			}
+		}
+	}
+	if n == 0 {
+		r.Unk(rule, "index sites", "-", "no index into a block-checksum list found in package sender")
+	}
+}
+
+// okMapValues: every value stored into the map (through parameters: the map
+// is built by the caller) satisfies ok.
+func okMapValues(p *Prog, m ssa.Value, ok func(v ssa.Value, at ssa.Instruction) string) string {
+	g := p.ModGraph()
+	n := 0
+	for _, root := range g.paramRoots(m, 0) {
+		root = unwrapLocal(root)
+		mk, isMk := root.(*ssa.MakeMap)
+		if !isMk {
+			return "map of positions of unknown origin"
+		}
+		for _, ref := range *mk.Referrers() {
+			if mu, isMU := ref.(*ssa.MapUpdate); isMU {
+				n++
+				if why := ok(mu.Value, mu); why != "" {
+					return why
+				}
+			}
+		}
+	}
+	if n == 0 {
+		return "no update of the position map found"
+	}
+	return ""
+}
+
+// onlySortArg: the closure value is used only as the comparison argument of
+// sort.Slice / sort.SliceStable / sort.Search / slices.SortFunc /
+// slices.BinarySearchFunc (which call it with indices in range / elements).
+func onlySortArg(mc *ssa.MakeClosure) bool {
+	refs := mc.Referrers()
+	if refs == nil || len(*refs) == 0 {
+		return false
+	}
+	for _, ref := range *refs {
+		c, ok := ref.(ssa.CallInstruction)
+		if !ok {
+			return false
+		}
+		switch calleeName(c) {
+		case "sort.Slice", "sort.SliceStable", "sort.Search", "slices.SortFunc", "slices.SortStableFunc", "slices.BinarySearchFunc":
+		default:
+			return false
+		}
+	}
+	return true
+}
+
+func onlyCalled(mc *ssa.MakeClosure) bool {
+	refs := mc.Referrers()
+	if refs == nil || len(*refs) == 0 {
+		return false
+	}
+	for _, ref := range *refs {
+		c, ok := ref.(ssa.CallInstruction)
+		if !ok || c.Common().Value != ssa.Value(mc) {
+			return false
+		}
+		if _, isGo := ref.(*ssa.Go); isGo {
+			return false
+		}
+	}
+	return true
 }
